@@ -5,11 +5,48 @@ From Coq Require Import Arith Bool List Lia.
 From PV Require Import Pause.Model Pause.Proofs Pause.ReloadModel.
 Import ListNotations.
 
+(** A [Base] step of the current code = (for a [CReg]) the lookup, then the gate step on the cell
+    of the pool object the party now addresses. *)
+Lemma base_case : forall st b st', rstep st (Base b) = Some st' ->
+  gone st && is_admin b = false /\
+  exists st1, base_on st1 b = Some st' /\
+    cells st1 = cells st /\ registered st1 = registered st /\ fresh st1 = fresh st /\ gone st1 = gone st /\
+    (holds st1 = holds st \/
+     exists c, b = CReg c /\ gone st = false /\ pcs (cells st (holds st c)) c = Idle /\
+               holds st1 = upd (holds st) c (registered st)).
+Proof.
+  intros st b st' H. unfold rstep, rstep_gen in H.
+  destruct (gone st && is_admin b) eqn:GA; [discriminate|]. split; [reflexivity|].
+  destruct (reg_of b) as [c|] eqn:R.
+  - destruct (gone st) eqn:G; [discriminate|].
+    destruct (pcs (cells st (holds st c)) c) eqn:P; try discriminate.
+    eexists. split; [exact H|]. cbn. repeat split; auto.
+    right. exists c. destruct b; cbn in R; try discriminate. inversion R; subst. auto.
+  - exists st. repeat split; auto.
+Qed.
+
 Lemma client_step_shared : forall s b s' c, actor b = Some c -> step s b = Some s' ->
   paused s' = paused s /\ apc s' = apc s.
 Proof.
   intros s b s' c A H. destruct (step_gen_inv _ _ _ _ H) as [m [Hm ->]].
   inversion Hm; subst; cbn in *; auto; discriminate.
+Qed.
+
+Lemma client_step_pg : forall s b s' c, actor b = Some c -> step s b = Some s' ->
+  paused s' = paused s /\ gen s' = gen s /\ apc s' = apc s.
+Proof.
+  intros s b s' c A H. destruct (step_gen_inv _ _ _ _ H) as [m [Hm ->]].
+  inversion Hm; subst; cbn in *; auto; discriminate.
+Qed.
+
+Lemma base_on_inv : forall st b st', base_on st b = Some st' ->
+  exists s', step (cells st (target st b)) b = Some s' /\
+             cells st' = upd (cells st) (target st b) s' /\ registered st' = registered st /\
+             holds st' = holds st /\ fresh st' = fresh st /\ gone st' = gone st.
+Proof.
+  intros st b st' H. unfold base_on in H.
+  destruct (step (cells st (target st b)) b) as [s'|] eqn:E; [|discriminate].
+  inversion H; subst. exists s'. cbn. repeat split; auto.
 Qed.
 
 Lemma resume_result : forall s s', run s [AStore; ANotify] = Some s' -> paused s' = false /\ apc s' = AIdle.
@@ -31,32 +68,37 @@ Lemma shared_invisible_from : forall l s st,
   (gone st = true -> paused (cells st 0) = false /\ apc (cells st 0) = AIdle).
 Proof.
   induction l as [|e l IH]; intros s st HR HH HG NF H.
-  - cbn in H. inversion H; subst. repeat split; auto; apply HG; assumption.
-  - simpl rrun in H. destruct (rstep s e) as [s1|] eqn:E; [|discriminate].
+  - unfold rrun in H. simpl in H. inversion H; subst. repeat split; auto; apply HG; assumption.
+  - unfold rrun in H. simpl rrun_gen in H. fold rstep in H. fold rrun in H.
+    destruct (rstep s e) as [s1|] eqn:E; [|discriminate].
     assert (NF' : ~ In ReloadFresh l) by (intro I; apply NF; right; exact I).
     destruct e as [b| | | |c]; simpl erase.
-    + unfold rstep in E.
-      assert (T : target s b = 0).
-      { unfold target. destruct (actor b); [apply HH|exact HR]. }
-      rewrite T in E.
-      destruct (gone s && is_admin b) eqn:GA; [discriminate|].
+    + destruct (base_case _ _ _ E) as [GA [s0 [E0 [C0 [R0 [F0 [G0 Hh]]]]]]].
+      assert (HH0 : forall c, holds s0 c = 0).
+      { intro c. destruct Hh as [Hh|[c1 [_ [_ [_ Hh]]]]]; rewrite Hh; [apply HH|].
+        unfold upd. destruct (Nat.eqb c c1); [exact HR|apply HH]. }
+      assert (T : target s0 b = 0).
+      { unfold target. destruct (actor b); [apply HH0|rewrite R0; exact HR]. }
+      unfold base_on in E0. rewrite T, C0 in E0.
       destruct (step (cells s 0) b) as [s'|] eqn:Eb; [|discriminate].
-      inversion E; subst s1; clear E.
+      inversion E0; subst s1; clear E0.
       assert (HG' : gone s = true -> paused s' = false /\ apc s' = AIdle).
       { intro G. rewrite G in GA. cbn in GA. unfold is_admin in GA.
         destruct (actor b) as [c|] eqn:A; [|discriminate].
         destruct (client_step_shared _ _ _ c A Eb) as [P1 P2]. rewrite P1, P2. apply HG; exact G. }
-      assert (HGx : gone (mkR (upd (cells s) 0 s') (registered s) (holds s) (fresh s) (gone s)) = true ->
-                    paused (cells (mkR (upd (cells s) 0 s') (registered s) (holds s) (fresh s) (gone s)) 0) = false /\
-                    apc (cells (mkR (upd (cells s) 0 s') (registered s) (holds s) (fresh s) (gone s)) 0) = AIdle).
-      { cbn. rewrite ?upd_same. exact HG'. }
-      destruct (IH (mkR (upd (cells s) 0 s') (registered s) (holds s) (fresh s) (gone s)) st HR HH HGx NF' H) as [R1 [H1 [Run G1]]].
+      assert (HGx : gone (mkR (upd (cells s) 0 s') (registered s0) (holds s0) (fresh s0) (gone s0)) = true ->
+                    paused (cells (mkR (upd (cells s) 0 s') (registered s0) (holds s0) (fresh s0) (gone s0)) 0) = false /\
+                    apc (cells (mkR (upd (cells s) 0 s') (registered s0) (holds s0) (fresh s0) (gone s0)) 0) = AIdle).
+      { cbn. rewrite ?upd_same. rewrite G0. exact HG'. }
+      assert (HRx : registered (mkR (upd (cells s) 0 s') (registered s0) (holds s0) (fresh s0) (gone s0)) = 0).
+      { cbn. rewrite R0. exact HR. }
+      destruct (IH (mkR (upd (cells s) 0 s') (registered s0) (holds s0) (fresh s0) (gone s0)) st HRx HH0 HGx NF' H) as [R1 [H1 [Run G1]]].
       split; [exact R1|]. split; [exact H1|]. split; [|exact G1].
       cbn in Run. rewrite ?upd_same in Run.
       rewrite (run_cons _ _ _ _ Eb). exact Run.
     + inversion E; subst s1. apply (IH s st); auto.
     + exfalso. apply NF. left. reflexivity.
-    + unfold rstep in E. destruct (gone s) eqn:G; [discriminate|]. rewrite HR in E.
+    + unfold rstep, rstep_gen in E. destruct (gone s) eqn:G; [discriminate|]. rewrite HR in E.
       destruct (run (cells s 0) [AStore; ANotify]) as [s'|] eqn:Er; [|discriminate].
       inversion E; subst s1; clear E.
       assert (HGx : gone (mkR (upd (cells s) 0 s') 0 (holds s) (fresh s) true) = true ->
@@ -70,7 +112,7 @@ Proof.
       destruct (step_gen false (cells s 0) AStore) as [x1|]; [|discriminate].
       destruct (step_gen false x1 ANotify) as [x2|]; [|discriminate].
       inversion Er; subst x2. exact Run.
-    + unfold rstep in E. destruct (gone s) eqn:G.
+    + unfold rstep, rstep_gen in E. destruct (gone s) eqn:G.
       * inversion E; subst s1. apply (IH s st); auto.
       * rewrite HH, HR in E. cbn in E. inversion E; subst s1. apply (IH s st); auto.
         intro G'. rewrite G' in G. discriminate.
@@ -121,18 +163,17 @@ Qed.
 Lemma gone_frozen : forall st e st' k, rstep st e = Some st' -> gone st = true ->
   paused (cells st' k) = paused (cells st k) /\ (gen (cells st' k) = gen (cells st k)).
 Proof.
-  intros st e st' k H G. destruct e as [b| | | |c]; unfold rstep in H; rewrite ?G in H.
-  - cbn in H. unfold is_admin in H. destruct (actor b) as [c|] eqn:A; [|discriminate].
-    destruct (step (cells st (target st b)) b) as [s'|] eqn:Eb; [|discriminate].
-    inversion H; subst st'; clear H. cbn.
-    destruct (Nat.eq_dec k (target st b)) as [->|Hne].
-    + rewrite upd_same. destruct (step_gen_inv _ _ _ _ Eb) as [m [Hm ->]].
-      inversion Hm; subst; cbn in *; auto; discriminate.
+  intros st e st' k H G. destruct e as [b| | | |c].
+  - destruct (base_case _ _ _ H) as [GA [s1 [E1 [C1 [R1 [F1 [G1 Hh]]]]]]].
+    rewrite G in GA. cbn in GA. unfold is_admin in GA. destruct (actor b) as [c|] eqn:A; [|discriminate].
+    destruct (base_on_inv _ _ _ E1) as [s' [Es [Cs _]]]. rewrite Cs, C1.
+    destruct (Nat.eq_dec k (target s1 b)) as [->|Hne].
+    + rewrite upd_same. rewrite C1 in Es. destruct (client_step_pg _ _ _ c A Es) as [P1 [P2 _]]. auto.
     + rewrite upd_other by assumption. auto.
-  - inversion H; subst; auto.
-  - inversion H; subst; cbn; auto.
-  - discriminate.
-  - inversion H; subst; auto.
+  - unfold rstep, rstep_gen in H. inversion H; subst; auto.
+  - unfold rstep, rstep_gen in H. inversion H; subst; cbn; auto.
+  - unfold rstep, rstep_gen in H. rewrite G in H. discriminate.
+  - unfold rstep, rstep_gen in H. rewrite G in H. inversion H; subst; auto.
 Qed.
 
 (** The code before the repair: a session held at RELOAD time is stranded. *)
@@ -156,21 +197,20 @@ Qed.
 Lemma detached_cell_frozen : forall st e st' k, rstep st e = Some st' -> k <> registered st ->
   gen (cells st' k) = gen (cells st k) /\ paused (cells st' k) = paused (cells st k).
 Proof.
-  intros st e st' k H N. destruct e as [b| | | |c]; unfold rstep in H.
-  - destruct (gone st && is_admin b); [discriminate|].
-    destruct (step (cells st (target st b)) b) as [s'|] eqn:Eb; [|discriminate].
-    inversion H; subst st'; clear H. cbn.
-    destruct (Nat.eq_dec k (target st b)) as [->|Hne].
-    + rewrite upd_same.
-      destruct (step_gen_inv _ _ _ _ Eb) as [m [Hm ->]].
-      unfold target in N. inversion Hm; subst; cbn in *; auto; exfalso; apply N; reflexivity.
+  intros st e st' k H N. destruct e as [b| | | |c].
+  - destruct (base_case _ _ _ H) as [GA [s1 [E1 [C1 [R1 [F1 [G1 Hh]]]]]]].
+    destruct (base_on_inv _ _ _ E1) as [s' [Es [Cs _]]]. rewrite Cs, C1.
+    destruct (Nat.eq_dec k (target s1 b)) as [->|Hne].
+    + rewrite upd_same. rewrite C1 in Es. unfold target in N, Es |- *.
+      destruct (actor b) as [c|] eqn:A; [|exfalso; apply N; exact R1].
+      destruct (client_step_pg _ _ _ c A Es) as [P1 [P2 _]]. auto.
     + rewrite upd_other by assumption. auto.
-  - inversion H; subst; auto.
-  - inversion H; subst; cbn; auto.
-  - destruct (gone st); [discriminate|].
+  - unfold rstep, rstep_gen in H. inversion H; subst; auto.
+  - unfold rstep, rstep_gen in H. inversion H; subst; cbn; auto.
+  - unfold rstep, rstep_gen in H. destruct (gone st); [discriminate|].
     destruct (run (cells st (registered st)) [AStore; ANotify]); [|discriminate].
     inversion H; subst st'; clear H. cbn. rewrite upd_other by assumption. auto.
-  - destruct (gone st); [inversion H; subst; auto|].
+  - unfold rstep, rstep_gen in H. destruct (gone st); [inversion H; subst; auto|].
     destruct (Nat.eqb (holds st c) (registered st)); [inversion H; subst; auto|].
     destruct (pcs (cells st (holds st c)) c); try discriminate.
     inversion H; subst st'; clear H. cbn.
